@@ -60,6 +60,8 @@ func toSymbols(s string) []string {
 			out = append(out, "UFFFD")
 		case 'é':
 			out = append(out, "U1")
+		case '\u00fc', '\u0129':
+			out = append(out, "x")
 		case 'あ':
 			out = append(out, "U2")
 		case '"':
@@ -69,6 +71,20 @@ func toSymbols(s string) []string {
 		}
 	}
 	return out
+}
+
+// splitOrdinary is the ordinary character "x" of a construction: in two of
+// them it is a multi-byte character that shares its first byte ("\u00fc", C3 BC)
+// or its last byte ("\u0129", C4 A9) with the multi-byte IFS character
+// "\u00e9" (C3 A9), so that a byte-wise comparison with IFS shows.
+func splitOrdinary(variant string) string {
+	switch variant {
+	case "var":
+		return "\u00fc"
+	case "dflt":
+		return "\u0129"
+	}
+	return "x"
 }
 
 // splitWord builds the word for the segment ids.  In variant "lit"
@@ -82,6 +98,9 @@ func splitWord(segs []int, variant string, env *interp.ExecEnv) ast.Word {
 		switch {
 		case id <= n:
 			c := symbol(splitChars[id-1])
+			if c == "x" {
+				c = splitOrdinary(variant)
+			}
 			if variant == "arith" && c == "1" {
 				// the digit comes out of an arithmetic expansion
 				w = append(w, &ast.ArithExp{Expr: ast.Word{&ast.Lit{Value: "3 - 2"}}})
@@ -94,6 +113,9 @@ func splitWord(segs []int, variant string, env *interp.ExecEnv) ast.Word {
 			}
 		case id <= 2*n:
 			c := symbol(splitChars[id-n-1])
+			if c == "x" {
+				c = splitOrdinary(variant)
+			}
 			switch i % 3 {
 			case 0:
 				w = append(w, &ast.Quote{Tok: `'`, Value: ast.Word{&ast.Lit{Value: c}}})
@@ -103,10 +125,15 @@ func splitWord(segs []int, variant string, env *interp.ExecEnv) ast.Word {
 				w = append(w, &ast.Quote{Tok: `\`, Value: ast.Word{&ast.Lit{Value: c}}})
 			}
 		default:
-			if i%2 == 0 {
+			// empty quotes: as the parser builds them ('' holds an empty literal, "" holds nothing), and
+			// '' holding nothing, as a program that builds the tree itself may write it
+			switch i % 3 {
+			case 0:
 				w = append(w, &ast.Quote{Tok: `'`, Value: ast.Word{&ast.Lit{Value: ""}}})
-			} else {
+			case 1:
 				w = append(w, &ast.Quote{Tok: `"`})
+			default:
+				w = append(w, &ast.Quote{Tok: `'`})
 			}
 		}
 	}
